@@ -22,6 +22,7 @@ import (
 	"github.com/yandex/pandora/core/aggregator/netsample"
 	"github.com/yandex/pandora/core/engine"
 	"github.com/yandex/pandora/core/schedule"
+	pkgerrors "github.com/pkg/errors"
 	"go.uber.org/zap"
 	"go.uber.org/zap/zapcore"
 	"go.uber.org/zap/zaptest/observer"
@@ -183,6 +184,11 @@ func (pm *poolMocks) faultFired() bool {
 
 func runPlan(res *vkit.Result, p Plan) {
 	marker := fmt.Errorf("verif-marker-%s-%s-%d", p.Component, p.Pos, p.Rep)
+	if p.Rep%3 == 2 && (p.Component == "provider" || p.Component == "aggregator") {
+		// the component's own failure is a timeout of its own (a final upload, a flush): an error
+		// caused by context.DeadlineExceeded, which is not the cancellation of the run
+		marker = pkgerrors.WithMessage(context.DeadlineExceeded, marker.Error())
+	}
 	core_, logs := observer.New(zapcore.DebugLevel)
 	log := zap.New(core_)
 	var cfg engine.Config
